@@ -1,6 +1,6 @@
 """Which units decide which property (DESIGN.md sections 1, 5)."""
 
-VERUS_UNITS = ['U-FMT', 'U-REACH', 'U-COMPACTAS', 'U-SANITY', 'U-RESOLVE', 'U-CONTAINS', 'U-CALLS']
+VERUS_UNITS = ['U-FMT', 'U-REACH', 'U-COMPACTAS', 'U-SANITY', 'U-RESOLVE', 'U-CONTAINS', 'U-CALLS', 'U-DESCR']
 
 PROPS = {
     'C15': {
@@ -51,14 +51,14 @@ PROPS = {
     },
     'C13': {
         'level': 'proof',
-        'verus': ['U-FMT'],
+        'verus': ['U-DESCR'],
         'kani': ['primnames_table', 'primnames_in_type_name'],
         'trusted_base': [
             'Verus 0.2026.09.13, Z3, rustc 1.98.1',
             'PeekChars shim = peekmore 1.3.0 (3 external_body contracts); SmallVec as Vec; &str <= isize::MAX bytes',
         ],
         'assumptions': [
-            'type_description passes the unformatted string to format_type_description unchanged (description.rs lines 50-54, 3 lines, not under contract)',
+            'everything type_description does before the formatting decision (Transformer construction, policies, resolve) is abstracted by rule R8-head: its result is an arbitrary string named by an uninterpreted spec function',
             'memory allocation for the output String succeeds',
         ],
         'not_covered': [
